@@ -423,11 +423,11 @@ async def pair_case(rng, wa, wb, ka, kb, length, script=None):
             choices = []
             for sd in 'cs':
                 if sim.pending(sd):
-                    choices.append((6, ['deliver', sd]))
+                    choices.append((9, ['deliver', sd]))
             if ch.get_write_buffer_size() == 0:
                 w_peer = wb if side == 'c' else wa
-                choices.append((4, ['write', side, 0, rng.choice([1, 5, w_peer // 2, w_peer, w_peer + 7, 2 * w_peer + 3])]))
-            choices += [(1, ['eof', side, 0]), (2, ['close', side, 0]), (1, ['abort', side, 0])]
+                choices.append((6, ['write', side, 0, rng.choice([1, 5, w_peer // 2, w_peer, w_peer + 7, 2 * w_peer + 3])]))
+            choices += [(0.6, ['eof', side, 0]), (0.7, ['close', side, 0]), (0.3, ['abort', side, 0])]
             if not paused[side]:
                 choices.append((2, ['pause', side, 0]))
             elif nchunks[side] <= 1:
@@ -565,6 +565,9 @@ def fixed_scenarios():
             ['pause', 'c', 0], ['pause', 's', 0], S, ['write', 'c', 0, big], ['write', 's', 0, big], S,
             dc, dc, dc, dc, dc, dc, dc, dc, S, ds, ds, ds, ds, ds, ds, ds, ds, S,
             ['wait_closed', 'c', 0], ['wait_closed', 's', 0], S, ['close', 'c', 0], S, ['close', 's', 0], S],
+        # a reader blocked in read() is woken by data and takes it; the next read() blocks again; then the cut
+        'blocked_reader_takes_data': up + [['read', 's', 0], S, ['write', 'c', 0, SMALL], S, dc, dc, S, ['read', 's', 0], S,
+                                           ['read', 'c', 0], ['wait_closed', 'c', 0], S],
         'open_refused': [o(acc=False), S, dc, dc, S, ds, ds, S],
         'request_refused': [o(af=False), S, dc, dc, S, ds, ds, S, dc, dc, S, ds, ds, S, dc, dc, S],
         'pty_refused': [o(pty=True, ap=False), S, dc, dc, S, ds, ds, S, dc, dc, S, ds, ds, S, dc, dc, S],
@@ -906,10 +909,12 @@ def run(ctx):
         '(small / window-filling), eof, close, abort, pause, resume, read, drain, wait_closed, global request, '
         'conn close/abort/wait_closed, deliver next packet c->s / s->c, races (several ops at one endpoint without a loop '
         'turn in between)} on up to 3 channels of a real client/server pair over a manually scheduled in-memory wire: '
-        '17 fixed scenarios + seeded online-generated ones; EVERY scenario is re-run with the link cut at EVERY settle '
+        f'{len(fixed_scenarios())} fixed scenarios + seeded online-generated ones; EVERY scenario is re-run with the link cut at EVERY settle '
         'point (after every packet delivery / application call) followed by post-mortem API calls; both endpoints of every '
         'run are compared with Model/Close.v at every settle point; connect() is cut after every handshake packet; an '
-        'SFTP client with requests in flight is cut at every packet. non-trivial = at least one session object was created')
+        'SFTP client with requests in flight is cut at every packet; the byte-counted pair model (ClosePair.v) is compared '
+        'after every op with a real channel driven with {write n, eof, close, abort, pause, resume, deliver} for receive '
+        'windows 1..64. non-trivial = at least one session object was created')
     ctx.cov['trusted_base'] += [
         'Model/Close.v abstracts byte counts: the send buffer is a class (empty / <= water mark / above) supplied by the '
         'environment at each write and window adjust (read back through get_write_buffer_size), the receive buffer is '
@@ -919,9 +924,12 @@ def run(ctx):
         'asyncio modelled as a FIFO ready queue (call_soon order, one wake-up hop per awaited future)',
         'SFTP request waiters, connect() during the handshake, listeners, X11/agent forwarders, keepalive and login '
         'timers are covered by the direct oracle only, not by the model',
-        'C09_handshake is proved on a pair model with byte-counted windows (Model/ClosePair.v) that is tied to the code '
-        'by the handshake oracle, not by a per-op correspondence',
-        'private attributes read with fallback: conn._channels, chan._send_state/_recv_state (observation only)',
+        'C09_handshake / C09_handshake_reached are proved on a pair model with byte-counted windows (Model/ClosePair.v): one '
+        'DATA packet per flush and one delivery per resume (the tied runs keep at most one write buffered and at most one chunk '
+        'behind a reader that is resumed); protocol errors (which end the connection: C09_resolved) are excluded by premise '
+        'rather than proved unreachable between two honest endpoints',
+        'private attributes read with fallback: conn._channels, chan._send_state/_recv_state, and for the pair runs '
+        'chan._send_window/_recv_window/_recv_buf_len (observation only)',
     ]
     ctx.prove()
     sshutil.run(main_async(ctx), timeout=3000)
